@@ -336,6 +336,17 @@ theorem tidmap_lanes (start : Int) (es out : List TEv) (c cF : TidCtx) (hinv : T
     have : t1 = t2 := by rw [ht1, ht2] at heq; exact Option.some.inj heq
     rw [← hl1, ← hl2, this]
 
+/-- **the same for (pid, tid) lanes** - what the overlap stage behind it works on: the stage leaves the pid alone, so
+two rewritten events share a lane afterwards IFF they shared one before. -/
+theorem tidmap_lanes_pidtid (start : Int) (es out : List TEv) (c cF : TidCtx) (hinv : TidInv start c)
+    (hstep : c.step ≠ 0) (h : mapAll c es = .ok (cF, out))
+    (p q : TEv × TEv) (hp : p ∈ es.zip out) (hq : q ∈ es.zip out) (mp : Mapped p.1) (mq : Mapped q.1) :
+    (p.2.pid = q.2.pid ∧ p.2.tid = q.2.tid) ↔ (p.1.pid = q.1.pid ∧ p.1.tid = q.1.tid) := by
+  have hall := (mapAll_spec start es c cF out hinv h).2.2.2
+  have rp := (forall₂_of_mem_zip hall p hp).2.1
+  have rq := (forall₂_of_mem_zip hall q hq).2.1
+  rw [rp, rq, tidmap_lanes start es out c cF hinv hstep h p q hp hq mp mq]
+
 /-- with a non-empty table no call raises (the `IndexError` branch needs `remap_size = 0`) -/
 theorem tidmap_total (start : Int) : ∀ (es : List TEv) (c : TidCtx), TidInv start c → c.remap ≠ [] →
     ∃ r, mapAll c es = .ok r
